@@ -97,9 +97,27 @@ def strict_morton_bound(repo, col):
     if not mentions:
         raise AnalysisError("anchor vanished: %s in %s" % (size_attr, fn.key))
     if not found:
-        col.add(rule, fn, "grid_coord < grid_size", False,
+        # a guard that compares the coordinates with something this rule
+        # cannot identify as the grid size is not evidence of a missing check
+        other = False
+        for g, coord_param in _coord_scopes(fn, params[0]):
+            gsrc = _elem_sources(g, local_defs(g.node))
+            for st, atoms in _all_guard_atoms(g):
+                for a in atoms:
+                    for x, y in ((a.left, a.right), (a.right, a.left)):
+                        is_coord = any(coord_param in gsrc.get(n, ())
+                                       for n in names_in(x)) or (
+                            isinstance(x, ast.Subscript) and
+                            norm(x.value) == coord_param)
+                        if is_coord and a.op in ("<", "<=", ">", ">=") and \
+                                const_int(y) is None:
+                            other = True
+        col.add(rule, fn, "grid_coord < grid_size", other,
                 "no raise-guard compares the grid coordinates with "
-                "self.grid_sizes: positions outside the grid are accepted")
+                "self.grid_sizes: positions outside the grid are accepted"
+                if not other else "a guard compares the coordinates with a "
+                "bound this rule does not identify as the grid size",
+                undecided=other)
         return
     strict = [x for x in found if x[2].op == "<"]
     for g, st, a in found:
@@ -135,6 +153,11 @@ def _index_vs_count_atoms(fn, coord_param, size_attr):
                 if s_ == size_attr:
                     return "size"
         if txt == size_attr:
+            return "size"
+        # the count reached through a per-axis record (axis.grid_size)
+        leaf = size_attr.split(".")[-1]
+        if isinstance(expr, ast.Attribute) and leaf.startswith(expr.attr) \
+                and len(expr.attr) >= len(leaf) - 1:
             return "size"
         return None
     out = []
